@@ -19,11 +19,15 @@ SampleT = Rec("frequenz.sdk.timeseries._base_types:Sample", timestamp=Time, valu
 # its stream (stamped next_ts) and remembers it (this is the sample the steps will read)
 FETCH = dict(is_async=True, returns="Sample(pre.next_ts, fresh)", fresh=Opt(Qty("Power")),
              effects={"next_ts": "self.next_ts + STEP", "last_ts": "self.next_ts", "n_fetched": "self.n_fetched + 1"})
-FetcherT = ExtObj("MetricFetcher", methods=dict(fetch_next=FETCH), next_ts=Time, last_ts=Time, n_fetched=Int)
+# the fetcher is also a formula step: apply() pushes the value of the sample fetched last; the model records the
+# timestamp of the sample the step read (read_ts) and how often it ran
+READ = dict(effects={"read_ts": "self.last_ts", "n_read": "self.n_read + 1"})
+FetcherT = ExtObj("MetricFetcher", methods=dict(fetch_next=FETCH, apply=READ), next_ts=Time, last_ts=Time, n_fetched=Int,
+                  read_ts=Time, n_read=Int)
 CreateT = ExtObj("create_method", methods={"__call__": dict(returns=Qty("Power"))})
 ConstStepT = Obj(f"{ST}:ConstantValue", _value=Real)
 EvaluatorT = Obj(f"{EV}:FormulaEvaluator", _name=OpaqueT("name"), _steps=FixedList(ConstStepT),
-                 _metric_fetchers=DictOpt({"a": FetcherT, "b": FetcherT}, always=["a", "b"]), _first_run=Bool,
+                 _metric_fetchers=DictOpt({"a": FetcherT, "b": FetcherT, "c": FetcherT}, always=["a", "b", "c"]), _first_run=Bool,
                  _create_method=CreateT)
 
 
@@ -35,9 +39,13 @@ def fb(self):
     return self._metric_fetchers["b"]
 
 
+def fc(self):
+    return self._metric_fetchers["c"]
+
+
 def aligned(self):
-    """Both input streams will deliver the same timestamp next."""
-    return fa(self).next_ts == fb(self).next_ts
+    """All input streams will deliver the same timestamp next."""
+    return fa(self).next_ts == fb(self).next_ts and fb(self).next_ts == fc(self).next_ts
 
 
 @contract(f"{EV}:FormulaEvaluator.apply")
@@ -49,30 +57,54 @@ class EvaluatorApply:
     result = SampleT
     modifies = ["self._metric_fetchers", "self._first_run", "self._create_method"]
     inline = [f"{EV}:FormulaEvaluator._synchronize_metric_timestamps", f"{ST}:ConstantValue.apply"]
-    aliases = dict(A="self._metric_fetchers['a']", B="self._metric_fetchers['b']")
+    aliases = dict(A="self._metric_fetchers['a']", B="self._metric_fetchers['b']", C="self._metric_fetchers['c']")
+    # the formula's steps: the two fetchers themselves (as in a built formula) followed by one constant
+    ghost_init = ["self._steps.insert(0, self._metric_fetchers['c'])", "self._steps.insert(0, self._metric_fetchers['b'])",
+                  "self._steps.insert(0, self._metric_fetchers['a'])"]
     requires = dict(steady_state_is_aligned="self._first_run or aligned(self)",
-                    fresh="A.n_fetched == 0 and B.n_fetched == 0")
+                    fresh="A.n_fetched == 0 and B.n_fetched == 0 and C.n_fetched == 0"
+                          " and A.n_read == 0 and B.n_read == 0 and C.n_read == 0")
     loops = {"while metric_ts < latest_ts": dict(
         havoc_fields={"A.next_ts": Time, "A.last_ts": Time, "A.n_fetched": Int, "A.calls": OpaqueT("log"),
                       "A.results": OpaqueT("log"), "B.next_ts": Time, "B.last_ts": Time, "B.n_fetched": Int,
-                      "B.calls": OpaqueT("log"), "B.results": OpaqueT("log")},
+                      "B.calls": OpaqueT("log"), "B.results": OpaqueT("log"),
+                      "C.next_ts": Time, "C.last_ts": Time, "C.n_fetched": Int, "C.calls": OpaqueT("log"),
+                      "C.results": OpaqueT("log")},
         invariant=dict(
-            cursors="A.next_ts == A.last_ts + STEP and B.next_ts == B.last_ts + STEP",
+            cursors="A.next_ts == A.last_ts + STEP and B.next_ts == B.last_ts + STEP and C.next_ts == C.last_ts + STEP",
             lagging_streams_share_timestamp="all(self._metric_fetchers[n].last_ts == metric_ts for n in names)",
             never_beyond_latest="metric_ts <= latest_ts",
             # streams not being drained right now still sit on the first sample they delivered
             # (the timestamp under which they are filed), or were already drained to the latest timestamp
-            others_untouched="all(n in names or self._metric_fetchers[n].last_ts == latest_ts"
-                             " or filed_under(metrics_by_ts, n, self._metric_fetchers[n].last_ts) for n in ('a', 'b'))",
+            others_untouched="all(n in names"
+                             " or (filed_under(metrics_by_ts, n, self._metric_fetchers[n].last_ts)"
+                             "     if n in later_names(metrics_by_ts, names) else self._metric_fetchers[n].last_ts == latest_ts)"
+                             " for n in ('a', 'b', 'c'))",
         ))}
     raises = dict(RuntimeError="False")
     ensures = dict(
-        inputs_have_output_timestamp="A.last_ts == result.timestamp and B.last_ts == result.timestamp",
+        inputs_have_output_timestamp="A.last_ts == result.timestamp and B.last_ts == result.timestamp"
+                                     " and C.last_ts == result.timestamp",
+        steps_read_samples_of_output_timestamp="A.n_read == 1 and B.n_read == 1 and C.n_read == 1"
+                                               " and A.read_ts == result.timestamp and B.read_ts == result.timestamp"
+                                               " and C.read_ts == result.timestamp",
         aligned_afterwards="aligned(self) and not self._first_run",
         steady_state_advances_one_step="implies(not old(self._first_run), result.timestamp == old(A.next_ts)"
-                                       " and A.n_fetched == 1 and B.n_fetched == 1)",
-        first_run_lands_on_latest_first_timestamp="implies(old(self._first_run), result.timestamp == max(old(A.next_ts), old(B.next_ts)))",
+                                       " and A.n_fetched == 1 and B.n_fetched == 1 and C.n_fetched == 1)",
+        first_run_lands_on_latest_first_timestamp="implies(old(self._first_run), result.timestamp == max(old(A.next_ts), old(B.next_ts), old(C.next_ts)))",
     )
+
+
+def later_names(metrics_by_ts, names):
+    """The stream names filed under timestamps that the synchronisation visits after the group `names`."""
+    out = []
+    seen = False
+    for ns in metrics_by_ts.values():
+        if seen:
+            out = out + ns
+        if ns == names:
+            seen = True
+    return out
 
 
 def filed_under(metrics_by_ts, name, ts):
